@@ -48,7 +48,7 @@ def scenario(rng, i):
         dt = spec['schedule'][0]['dt']
         sched = [spec['schedule'][0]]
         for v in rng.sample([0, -1, 1, 0.5, -0.4, 0], 3):
-            sched += [{'op': 'setpwm', 'value': v}, {'op': 'run', 'dt': dt, 'T': GEN.mulq(dt, rng.randint(4, 20))}]
+            sched += [{'op': 'setpwm', 'value': v}] + ([{'op': 'swapsolver'}] if rng.random() < 0.5 else []) + [{'op': 'run', 'dt': dt, 'T': GEN.mulq(dt, rng.randint(4, 20))}]
         spec['schedule'] = sched
         spec['manual_pwm'] = True
     elif m != 7 or rng.random() < 0.5:
